@@ -6,8 +6,10 @@
 #![allow(clippy::type_complexity)]
 
 mod common;
+mod metaops;
 mod props;
 mod seqx;
+mod vm;
 
 use common::{Run, Tier};
 
